@@ -176,6 +176,14 @@ func shouldProxy(method, urlPath string) (ok bool) {
 		return false
 	}
 
+	// Do not proxy paths with dot segments, since those could escape the
+	// allowed prefixes once normalized by the backend.
+	for _, part := range parts {
+		if part == "." || part == ".." {
+			return false
+		}
+	}
+
 	switch method {
 	case http.MethodGet:
 		return shouldProxyGet(parts)
